@@ -45,10 +45,84 @@ def generate(repo):
         st = take_bindings(split_statements(b), ["auto[n1_id,n2_id,n3_id]=f.get_node_ids()", "constvec3&p1=c->get_node(n1_id).pos()", "constvec3&p2=c->get_node(n2_id).pos()", "constvec3&p3=c->get_node(n3_id).pos()"], "face_side_wrt_plane")
         w = Walker({"p1": "v", "p2": "v", "p3": "v", "p": "v", "n": "v"}, lambda s: s, "false")
         defs.append("Definition face_side_gen {T : Type} (N : Num T) (p1 p2 p3 p n : vec3 T) : bool :=\n  %s." % w.walk(st))
+        # ---------------- the rotation that brings the division plane to z = 0: quaternion::normalize / to_matrix, mat33::dot / transpose
+        qh = strip_comments(open(os.path.join(repo, "include", "math_modules", "quaternion.hpp")).read())
+        mc = strip_comments(open(os.path.join(repo, "src", "math_modules", "mat33.cpp")).read())
+        if "quaternion(doublenw,doubleni,doublenj,doublenk):w(nw),i(ni),j(nj),k(nk){}" not in flat(qh):
+            raise Tr("quaternion constructor")
+        nb = function_body(qh, r"quaternion\s+normalize\s*\(\s*\)\s*const\s*\{")
+        ns = [x[1] for x in split_statements(nb)]
+        m1 = re.fullmatch(r"double norm = (.*)", ns[0]); m2 = re.fullmatch(r"return quaternion\((.*)\)", ns[1]) if len(ns) == 2 else None
+        if not m1 or not m2:
+            raise Tr("quaternion::normalize")
+        qenv = {"w": "d", "i": "d", "j": "d", "k": "d"}
+        gn, _ = parse(m1.group(1), qenv, "d")
+        comps = [parse(x.strip(), dict(qenv, norm="d"), "d")[0] for x in m2.group(1).split(",")]
+        if len(comps) != 4:
+            raise Tr("quaternion::normalize: four components expected")
+        tb = function_body(qh, r"mat33\s+to_matrix\s*\(\s*\)\s*const\s*\{")
+        ts = [x[1] for x in split_statements(tb)]
+        if [flat(x) for x in ts[:4]] != ["doubleqw=w", "doubleqx=i", "doubleqy=j", "doubleqz=k"]:
+            raise Tr("quaternion::to_matrix: names of the components")
+        ent = {}
+        for x in ts[4:13]:
+            mm = re.fullmatch(r"double (I[123][123]) = (.*)", x)
+            if not mm:
+                raise Tr("quaternion::to_matrix: entry: " + x)
+            ent[mm.group(1)] = parse(mm.group(2), {"qw": "d", "qx": "d", "qy": "d", "qz": "d"}, "d")[0]
+        if flat(" ".join(ts[13:])) != "mat33matrix({I11,I12,I13},{I21,I22,I23},{I31,I32,I33})returnmatrix" or len(ent) != 9:
+            raise Tr("quaternion::to_matrix: assembly of the matrix")
+        defs.append("Definition quat_matrix_gen {T : Type} (N : Num T) (qw qx qy qz : T) : @mat T :=\n  mkmat (mkv %s\n             %s\n             %s)\n        (mkv %s\n             %s\n             %s)\n        (mkv %s\n             %s\n             %s)." %
+                    tuple(ent["I%d%d" % (r, c)] for r in (1, 2, 3) for c in (1, 2, 3)))
+        # mat33::dot(vec3) (both overloads) and transpose
+        dbs = [function_body(mc[m.start():], r"vec3\s+mat33::dot\s*\([^)]*\)\s*const\s*noexcept\s*\{") for m in re.finditer(r"vec3\s+mat33::dot\s*\(", mc)]
+        if len(dbs) != 2 or flat(dbs[0]) != flat(dbs[1]):
+            raise Tr("mat33::dot(vec3): two identical overloads expected")
+        rsub = lambda x: re.sub(r"row_([123])_\[([012])\]", lambda m: "(v%s (r%s M))" % ("xyz"[int(m.group(2))], m.group(1)), x)
+        ds = [x[1] for x in split_statements(dbs[0])]
+        rows = []
+        for ax, x in zip("xyz", ds[:3]):
+            mm = re.fullmatch(r"double d%s = (.*)" % ax, x)
+            if not mm:
+                raise Tr("mat33::dot: component " + ax)
+            e_ = re.sub(r"row_([123])_\[([012])\]", r"R\1\2", mm.group(1)).replace("v.dx()", "v_x").replace("v.dy()", "v_y").replace("v.dz()", "v_z")
+            rows.append(parse(e_, dict({"R%d%d" % (r, c): "d" for r in (1, 2, 3) for c in (0, 1, 2)}, v_x="d", v_y="d", v_z="d"), "d")[0])
+        if flat(ds[3]) != "returnvec3(dx,dy,dz)":
+            raise Tr("mat33::dot: result")
+        lets = " ".join("let R%d%d := v%s (r%d M) in" % (r, c, "xyz"[c], r) for r in (1, 2, 3) for c in (0, 1, 2))
+        defs.append("Definition mdot_gen {T : Type} (N : Num T) (M : @mat T) (v : vec3 T) : vec3 T :=\n  %s\n  let v_x := vx v in let v_y := vy v in let v_z := vz v in\n  mkv %s\n      %s\n      %s." % (lets, rows[0], rows[1], rows[2]))
+        tb = flat(function_body(mc, r"mat33\s+mat33::transpose\s*\(\s*\)\s*const\s*noexcept\s*\{"))
+        want = "mat33result;" + "".join("result.row_%d_[%d]=row_%d_[%d];" % (r, c, c + 1, r - 1) for r in (1, 2, 3) for c in (0, 1, 2)) + "returnresult;"
+        if tb != want:
+            raise Tr("mat33::transpose: not the transposition")
+        # the block of map_points_to_xy_plane that builds the rotation
+        mb = flat(function_body(src, r"cell_divider::map_points_to_xy_plane\s*\([^)]*\)\s*noexcept\s*\{"))
+        blockw = ("constvec3xy_plane_normal(0.,0.,1.);mat33rotation_matrix;if(xy_plane_normal.dot(division_plane_normal)==1.0){rotation_matrix=mat33::identity();}"
+                  "else{constvec3a=division_plane_normal.cross(xy_plane_normal);constdoublew=1.0+division_plane_normal.dot(xy_plane_normal);quaternionq(w,a.dx(),a.dy(),a.dz());q=q.normalize();rotation_matrix=q.to_matrix();}")
+        if blockw not in mb:
+            raise Tr("map_points_to_xy_plane: construction of the rotation")
+        ih = flat(strip_comments(open(os.path.join(repo, "include", "math_modules", "mat33.hpp")).read()))
+        if "staticmat33identity()noexcept{returnmat33({1.,0.,0.},{0.,1.,0.},{0.,0.,1.});}" not in ih:
+            raise Tr("mat33::identity")
+        defs.append("Definition rot_to_z_gen {T : Type} (N : Num T) (division_plane_normal : vec3 T) : @mat T :=\n"
+                    "  let xy_plane_normal := mkv (nzero N) (nzero N) (none_ N) in\n"
+                    "  if neqb N (vdot N xy_plane_normal division_plane_normal) (none_ N) then midentity N else\n"
+                    "  let a := vcross N division_plane_normal xy_plane_normal in\n"
+                    "  let w := nadd N (none_ N) (vdot N division_plane_normal xy_plane_normal) in\n"
+                    "  let i := vx a in let j := vy a in let k := vz a in\n"
+                    "  let norm := %s in\n  quat_matrix_gen N %s %s %s %s." % (gn, comps[0], comps[1], comps[2], comps[3]))
+        # the forward map of a point (translate, rotate, z := 0) and the way back
+        for need in ("m.node_pos_lst[p_id*3]+=translation.dx();m.node_pos_lst[p_id*3+1]+=translation.dy();m.node_pos_lst[p_id*3+2]+=translation.dz();",
+                     "vec3pos_after_rotation=rotation_matrix.dot(vec3(m.node_pos_lst[p_id*3],m.node_pos_lst[p_id*3+1],m.node_pos_lst[p_id*3+2]));m.node_pos_lst[p_id*3]=pos_after_rotation.dx();m.node_pos_lst[p_id*3+1]=pos_after_rotation.dy();m.node_pos_lst[p_id*3+2]=0.;"):
+            if need not in mb:
+                raise Tr("map_points_to_xy_plane: forward map of a point")
+        bb = flat(function_body(src, r"void\s+cell_divider::map_points_to_division_plane\s*\([^)]*\)\s*noexcept\s*\{"))
+        if "constmat33rotation_inv=rotation_matrix.transpose();" not in bb or "p=rotation_inv.dot(p)-translation;" not in bb:
+            raise Tr("map_points_to_division_plane: the way back")
     except Exception as e:      # noqa
         err = str(e)
     L = ["(* Divider_gen.v — GENERATED by harness/translate_divider.py from /repo/src/triangulation_modules/cell_divider.cpp on every run.", "   Do not edit. *)",
-         "From Coq Require Import NArith ZArith Bool List.", "From SC Require Import Num Vec3.", "Local Open Scope bool_scope.", ""]
+         "From Coq Require Import NArith ZArith Bool List.", "From SC Require Import Num Vec3 Divider.", "Local Open Scope bool_scope.", ""]
     if err:
         L.append("(* translation failed: %s *)" % err.replace("*)", "* )"))
         L.append("Definition divider_translation_ok : bool := false.")
